@@ -461,6 +461,19 @@ func famSettings(w *World, c *Case, rng *rand.Rand) {
 				default:
 					w.Violate("C11", "malformed-settings-silently-accepted", "settings variant %s (client revisions %v): Start returned a live channel", variant, clientRevs)
 				}
+				// the peer must be able to tell: the carrier stream is half-closed or ended
+				// (not when the raw server ended the stream itself)
+				if variant != "end-with-error" && variant != "end-immediately" {
+					w.Advance(time.Second)
+					rs.mu.Lock()
+					peerSaw := rs.RecvDone
+					rs.mu.Unlock()
+					if !peerSaw {
+						w.Violate("C04", "aborted-tunnel-not-visible-to-peer", "settings variant %s: the client gave the tunnel up (%v) but neither half-closed nor ended the carrier stream", variant, ch.Err())
+						w.Violate("C11", "aborted-tunnel-not-visible-to-peer", "settings variant %s: the client gave the tunnel up (%v) but neither half-closed nor ended the carrier stream", variant, ch.Err())
+					}
+					w.Stat("settings_abort_visibility_checked", 1)
+				}
 				// further RPCs fail at once
 				t0 := w.VT()
 				s := &RPCSpec{ID: "after", Method: "Unary", Client: []Op{{K: "invoke", N: 1}}}
